@@ -50,7 +50,7 @@ def run_one(m, keep=False):
         for prop in m["props"]:
             env = dict(ENV, KVERIF_REPO=dst, KVERIF_DIR=vd)
             r = subprocess.run([os.path.join(VERIF, "bin", "kverif"), "check", prop, m.get("tier", "quick")],
-                               capture_output=True, text=True, env=env)
+                               capture_output=True, text=True, errors='replace', env=env)
             out_all += r.stdout + r.stderr
             for line in r.stdout.splitlines():
                 mm = re.match(r"\s+\[(\S+) (violated|undecided)\]", line)
